@@ -118,7 +118,15 @@ type inResult struct {
 	// Expanded: rule files whose probed route exists only if an environment variable expression was replaced as expected
 	Expanded int `json:"expanded,omitempty"`
 	// Deep: depth-/size-extreme documents generated in the child from the input's recipe and handed to heimdall
-	Deep     int       `json:"deep,omitempty"`
+	Deep int `json:"deep,omitempty"`
+	// PubChecks: rejected key store reloads after which the key set published on the management endpoint was still the previous one
+	PubChecks int `json:"pub_checks,omitempty"`
+	// HeldChecks: ... after which Keys() / Certificates() of the component that reloads the store were still the previous ones
+	HeldChecks int `json:"held_checks,omitempty"`
+	// Churn: file operations (create, remove, rename, symlink, mkdir ...) applied to the watched rule directory
+	Churn int `json:"churn,omitempty"`
+	// Matched: harmless requests / CheckRequests answered while a matcher expression from the input's rule file was evaluated
+	Matched  int       `json:"matched,omitempty"`
 	Problems []problem `json:"problems,omitempty"`
 	Notes    []string  `json:"notes,omitempty"`
 }
